@@ -848,6 +848,21 @@ def m_tuple_cmp(ex, st, callee, args, dest_ty):
     yield st, (some(o) if callee.endswith("partial_cmp") else o)
 
 
+def m_ne_via_eq(ex, st, callee, args, dest_ty):
+    """provided method PartialEq::ne = !eq for crate types with an eq body"""
+    tgt = callee[:-4] + "::eq"
+    if ex.resolve(tgt) is None:
+        return NotImplemented
+
+    def g():
+        for o in ex.call(st, tgt, args, dest_ty):
+            if o.kind != "return":
+                yield o
+            else:
+                yield o.st, mk_bool(z3.simplify(z3.Not(o.value.e)))
+    return g()
+
+
 def m_opaque_error(ex, st, callee, args, dest_ty):
     yield st, Opaque("Error", info=callee)
 
@@ -864,6 +879,7 @@ BASE_MODELS = [
     (R(r"^<str as ToString>::to_string$|^<String as ToString>::to_string$|^<str as ToOwned>::to_owned$|^<String as From<&str>>::from$|^must_use::<.*>$|^<&str as Into<String>>::into$|^<&str as ToString>::to_string$"), m_clone),
     (R(r" as PartialEq(<.*>)?>::(eq|ne)$"), m_partial_eq),
     (R(r"^<&.+ as (PartialEq|PartialOrd|Ord)(<&.*>)?>::\w+$"), m_ref_forward),
+    (R(r"^<[A-Z]\w* as PartialEq>::ne$"), m_ne_via_eq),
     (R(r"^Option::<.*>::as_ref$"), m_opt_as_ref),
     (R(r"^Option::<.*>::is_some$"), m_is_some),
     (R(r"^Option::<.*>::is_none$"), m_is_none),
